@@ -504,11 +504,13 @@ pub struct GenCfg {
     pub allow_arith: bool,
     pub allow_pred_operand: bool,  // predicates as operands of IS NULL
     pub wide_values: bool,         // extreme integers, tiny / huge floats, awkward text
+    pub allow_mismatch: bool,      // operands of unrelated types (text against number, LIKE on numbers):
+                                   // outside the reference semantics, still modelled
 }
 impl Default for GenCfg {
     fn default() -> Self {
         GenCfg { max_rows: 8, max_cols: 4, null_pct: 25, allow_not: true, allow_neg_forms: true, allow_null_lit: true,
-                 allow_bool_lit: true, allow_arith: true, allow_pred_operand: true, wide_values: false }
+                 allow_bool_lit: true, allow_arith: true, allow_pred_operand: true, wide_values: false, allow_mismatch: false }
     }
 }
 
@@ -583,7 +585,11 @@ pub fn gen_leaf(rng: &mut Rng, t: &Table, cfg: &GenCfg) -> Expr {
     let neg = cfg.allow_neg_forms && rng.chance(1, 3);
     // operand type: numeric (int / float, possibly mixed) or text
     let text = has_t && rng.chance(1, 3);
-    let (ta, tb) = if text { (ColTy::Text, ColTy::Text) } else { let a = gen_num_ty(rng, t); (a, if rng.chance(1, 4) { gen_num_ty(rng, t) } else { a }) };
+    let (mut ta, mut tb) = if text { (ColTy::Text, ColTy::Text) } else { let a = gen_num_ty(rng, t); (a, if rng.chance(1, 4) { gen_num_ty(rng, t) } else { a }) };
+    if cfg.allow_mismatch && rng.chance(1, 3) {
+        ta = *rng.pick(&[ColTy::Int, ColTy::Float, ColTy::Text]);
+        tb = *rng.pick(&[ColTy::Int, ColTy::Float, ColTy::Text]);
+    }
     match rng.below(100) {
         0..=39 => Expr::cmp(*rng.pick(&CmpOp::all()), gen_scalar(rng, t, ta, cfg, 1), gen_scalar(rng, t, tb, cfg, 1)),
         40..=57 => {
@@ -599,7 +605,8 @@ pub fn gen_leaf(rng: &mut Rng, t: &Table, cfg: &GenCfg) -> Expr {
         }
         _ => {
             if has_t || rng.chance(1, 2) {
-                let a = gen_scalar(rng, t, ColTy::Text, cfg, 0);
+                let aty = if cfg.allow_mismatch && rng.chance(1, 4) { ta } else { ColTy::Text };
+                let a = gen_scalar(rng, t, aty, cfg, 0);
                 let p = if rng.chance(1, 12) && cfg.allow_null_lit { Expr::null() } else { Expr::Lit(Val::text(*rng.pick(&PATTERNS))) };
                 Expr::Like(neg, Box::new(a), Box::new(p))
             } else {
@@ -623,4 +630,58 @@ pub fn gen_pred(rng: &mut Rng, t: &Table, cfg: &GenCfg, depth: usize) -> Expr {
         90..=95 if cfg.allow_pred_operand => Expr::IsNull(cfg.allow_neg_forms && rng.chance(1, 2), Box::new(gen_pred(rng, t, cfg, depth - 1))),
         _ => gen_leaf(rng, t, cfg),
     }
+}
+
+// ------------------------------------------------------------------ structured enumeration
+/// The fixed table of the structured stream: every combination of {NULL, 1, 2} in (c1, c2), a
+/// DOUBLE column c3 over {NULL, 1.0, 2.5} and a TEXT column c4 over {NULL, 'abc', 'b%d', ''}.
+pub fn small_domain_table(name: &str) -> Table {
+    let dom_i = [Val::Null, Val::Int(1), Val::Int(2)];
+    let dom_f = [Val::Null, Val::float(1.0), Val::float(2.5)];
+    let dom_t = [Val::Null, Val::text("abc"), Val::text("b%d"), Val::text("")];
+    let mut rows = vec![];
+    let mut k = 0usize;
+    for a in &dom_i { for b in &dom_i {
+        rows.push(vec![Val::Int(k as i64 + 1), a.clone(), b.clone(), dom_f[k % 3].clone(), dom_t[(k / 2) % 4].clone()]);
+        k += 1;
+    } }
+    Table { name: name.to_string(), cols: vec![ColTy::Int, ColTy::Int, ColTy::Int, ColTy::Float, ColTy::Text], rows }
+}
+
+/// every leaf predicate shape over the small-domain table: all six comparison operators over
+/// column / literal / NULL operand pairs, IN / NOT IN with and without NULL, [NOT] BETWEEN,
+/// [NOT] LIKE, IS [NOT] NULL, TRUE / FALSE / NULL
+pub fn small_domain_leaves() -> Vec<Expr> {
+    let c = Expr::col;
+    let i = Expr::int;
+    let f = |x: f64| Expr::Lit(Val::float(x));
+    let s = |x: &str| Expr::Lit(Val::text(x));
+    let n = Expr::null;
+    let mut out = vec![];
+    let pairs: Vec<(Expr, Expr)> = vec![
+        (c(1), i(1)), (c(1), c(2)), (c(1), n()), (n(), c(2)), (n(), n()), (c(3), f(1.0)), (c(1), c(3)), (c(3), i(2)),
+        (c(4), s("abc")), (c(4), n()), (i(1), i(2)), (i(1), f(1.0)), (n(), i(1)), (s("a"), s("a")),
+        (Expr::Arith(ArithOp::Add, Box::new(c(1)), Box::new(i(1))), i(2)), (c(1), i(-1)),
+    ];
+    for (a, b) in &pairs { for op in CmpOp::all() { out.push(Expr::cmp(op, a.clone(), b.clone())); } }
+    for neg in [false, true] {
+        for l in [vec![i(1)], vec![i(1), n()], vec![c(2), i(2)], vec![n()], vec![f(1.0), i(2)], vec![i(3), i(4)]] {
+            out.push(Expr::In(neg, Box::new(c(1)), l.clone()));
+        }
+        out.push(Expr::In(neg, Box::new(n()), vec![i(1), n()]));
+        out.push(Expr::In(neg, Box::new(c(3)), vec![f(2.5), n()]));
+        out.push(Expr::In(neg, Box::new(c(4)), vec![s("abc"), s("")]));
+        for (lo, hi) in [(i(1), i(2)), (c(2), i(2)), (n(), i(1)), (i(1), n()), (i(2), i(1)), (f(0.5), f(1.5))] {
+            out.push(Expr::Between(neg, Box::new(c(1)), Box::new(lo.clone()), Box::new(hi.clone())));
+        }
+        out.push(Expr::Between(neg, Box::new(c(3)), Box::new(i(1)), Box::new(f(2.5))));
+        out.push(Expr::Between(neg, Box::new(n()), Box::new(i(1)), Box::new(i(2))));
+        for p in ["a%", "%", "_b_", "b%d", "%d", "", "b_d"] { out.push(Expr::Like(neg, Box::new(c(4)), Box::new(s(p)))); }
+        out.push(Expr::Like(neg, Box::new(c(4)), Box::new(n())));
+        for a in [c(1), c(3), c(4), n(), i(1), Expr::Arith(ArithOp::Mul, Box::new(c(1)), Box::new(c(2)))] { out.push(Expr::IsNull(neg, Box::new(a))); }
+    }
+    out.push(Expr::Lit(Val::Bool(true)));
+    out.push(Expr::Lit(Val::Bool(false)));
+    out.push(n());
+    out
 }
